@@ -184,7 +184,7 @@ def catalogue_cases(rng, n):
             else:
                 a += '{german}' if name in ('\\foreignlanguage', '\\selectlanguage',
                                             'otherlanguage', 'otherlanguage*') \
-                    else rng.choice(['{ma}', '{ma mb}', '{m}'])
+                    else rng.choice(['{ma}', '{ma mb}', '{m}', '{ma % c\n  mb}', '{\n ma\n}', '{ma~mb--mc}'])
         if kind == 'm':
             call = name + a
             if call[-1].isalpha() or call[-1] == '@':
